@@ -380,7 +380,9 @@ def case_jit_threads(name, opts, dtype):
     results = {}
     fails = []
     n = 0
-    for th in (False, 1, 3, 4, 16):
+    # OpenMP builds only: num_threads=False is a different (serial) build whose -Ofast contraction may round
+    # differently; the property is about the NUMBER of threads of one build
+    for th in (1, 2, 3, 4, 16):
         n0 = len(shim.KERNELS)
         registry.instantiate(name, opts, real_t, th)
         for k, ck in enumerate(shim.KERNELS[n0:]):
